@@ -232,7 +232,11 @@ func c16routine(c *Ctx, rt *Routine) {
 				s := op.Callee
 				switch {
 				case strings.HasSuffix(s, ".opts.Handle"):
-					r.Pass("S1", key, site, "user Handle: returns when its context is cancelled (documented contract)")
+					if why := handleCtxProblem(p, rt, op.In); why != "" {
+						r.Fail("S1", key, site, why)
+					} else {
+						r.Pass("S1", key, site, "user Handle, given the context the parent cancels: returns when it is cancelled (documented contract)")
+					}
 				case strings.HasSuffix(s, ".opts.Divider") || s == "dyn:divider" || strings.HasPrefix(s, "divider"):
 					r.Pass("S1", key, site, "user Divider: pure computation (documented contract)")
 				case strings.Contains(s, "context.WithCancel"):
@@ -529,4 +533,31 @@ func (p *Prog) atMostOnce(entry *ssa.Function, target ssa.Instruction) bool {
 		}
 	}
 	return fl.Err == nil && !fl.sawState("2")
+}
+
+// handleCtxProblem: the user callback of a handler goroutine must be given the context that the
+// spawning goroutine cancels at termination (the handler's own context parameter).
+func handleCtxProblem(p *Prog, rt *Routine, in ssa.Instruction) string {
+	call, ok := in.(ssa.CallInstruction)
+	if !ok {
+		return ""
+	}
+	var ctxPar *ssa.Parameter
+	for _, par := range rt.E.Entry.Params {
+		if typeShort(par.Type()) == "context.Context" {
+			ctxPar = par
+		}
+	}
+	if ctxPar == nil {
+		return ""
+	}
+	for _, a := range call.Common().Args {
+		if typeShort(a.Type()) != "context.Context" {
+			continue
+		}
+		if a != ssa.Value(ctxPar) {
+			return "Handle is given " + p.Sym(a).String() + " instead of the handler's own context (the one the parent cancels on Stop): a Handle call that honours its context is never interrupted, wg.Wait() never returns and Stop() hangs with the handler goroutine alive"
+		}
+	}
+	return ""
 }
